@@ -416,7 +416,16 @@ struct StringStream {
         const SizeT     new_length = (Length() + len);
 
         if (Capacity() < new_length) {
-            expand(new_length);
+            const Char_T *first = First();
+
+            if ((first != nullptr) && (str >= first) && (str < (first + Capacity()))) {
+                // The source lies inside this stream (stream += stream): follow it to the new storage.
+                const SizeT src_offset = SizeT(str - first);
+                expand(new_length);
+                str = (First() + src_offset);
+            } else {
+                expand(new_length);
+            }
         }
 
         Memory::Copy((Storage() + Length()), str, (len * size));
